@@ -280,7 +280,7 @@ def match_known(prop: str, v: dict, known: List[dict]) -> Optional[dict]:
         if k.get("status") != "open" or k.get("property") != prop:
             continue
         m = k["match"]
-        if m.get("clause") is not None and m["clause"] != v["clause"]:
+        if m.get("clause") is not None and not re.fullmatch(m["clause"], v["clause"]):
             continue
         if m.get("key") is not None and not re.search(m["key"], v["key"]):
             continue
